@@ -487,6 +487,18 @@ func (fc *FuncCFG) locate(n ast.Node) (*cfg.Block, int, bool) {
 	if best != nil {
 		return fc.where[best], fc.index[best], true
 	}
+	// a statement the CFG has split into parts (e.g. a DeclStmt registered as its ValueSpecs, an if registered as
+	// its condition): the first registered node inside n
+	for reg := range fc.where {
+		if n.Pos() <= reg.Pos() && reg.End() <= n.End() {
+			if best == nil || reg.Pos() < best.Pos() {
+				best = reg
+			}
+		}
+	}
+	if best != nil {
+		return fc.where[best], fc.index[best], true
+	}
 	return nil, 0, false
 }
 
